@@ -60,7 +60,7 @@ RECURSIVE Eval(_, _, _)
 Eval(e, env, st) ==
   CASE e.k = "num" -> Good(e.v)
     [] e.k = "fl"  -> LET g == <<e.f, Args(e.a, env)>>
-                      IN  IF g \in DOMAIN st.fl /\ ~TooBig(st.fl[g]) THEN Good(st.fl[g]) ELSE Bad
+                      IN  IF g \in DOMAIN st.fl /\ st.fl[g][2] # 0 THEN Good(st.fl[g]) ELSE Bad
     [] e.k = "bin" -> LET x == Eval(e.l, env, st)
                           y == Eval(e.r, env, st)
                       IN  IF ~x.ok \/ ~y.ok THEN Bad
@@ -91,7 +91,7 @@ OrSet(S)  == IF "T" \in S THEN "T" ELSE IF "U" \in S THEN "U" ELSE "F"
 B3(b) == IF b THEN "T" ELSE "F"
 
 Cmp3(op, x, y, eps) ==
-  IF ~x.ok \/ ~y.ok \/ TooBig(x.v) \/ TooBig(y.v) THEN "U"
+  IF ~x.ok \/ ~y.ok \/ ~CmpSafe(x.v, y.v) THEN "U"
   ELSE LET S == CmpTolSet(op, x.v, y.v, eps)
        IN  IF S = BOOLEAN THEN "U" ELSE B3(TRUE \in S)
 
